@@ -1,64 +1,56 @@
-import ScenicModel.Props.C14Overrides
-import ScenicModel.Props.C14Stale
-import ScenicModel.Props.C14Revert
-import ScenicModel.Props.C14Nested
-import ScenicModel.Props.C14Witness
-import ScenicModel.Props.C14Globals
-import ScenicModel.Gen.SimCleanup
-import ScenicModel.Gen.VeneerGlobals
+import ScenicModel.Props.C14Base
+import ScenicModel.Props.C14SideOrder
+import ScenicModel.Props.C14SideAgents
+import ScenicModel.Props.C14SideStale
+import ScenicModel.Props.C14SideGlobals
+import ScenicModel.Props.C14SideSuspended
+import ScenicModel.Props.C14Destroy
 
 /-!
 # C14 — simulations leave scenes, scenarios and global state untouched, even on failure
 
-Property theorems (all for every event/operation sequence, cut off at any point = every failure point,
-and every history of earlier simulations):
+Root module of the property.  The general theorems (parametric in the configuration / tables) are in
+`C14Overrides`, `C14Stale`, `C14Revert`, `C14Nested`, `C14Globals`, `C14Destroy`, their negation witnesses in
+`C14Witness` / `C14Globals` / `C14Destroy`; the side conditions on the data regenerated from /repo, and the
+closed `…_current` theorems they yield, are in `C14Base` and `C14Side{Order,Agents,Stale,Globals,Suspended}`.
+Since the repairs 84308c42, 4fbf0f54, f1944ee0 and 0e4a55a4 all of these side conditions hold of the source;
+this module adds the statement that puts them together.
 
-* `proxy_isolation`, `sim_scene_untouched`, `sim_proxies_disabled`, `sim_reads_unchanged`,
-  `sim_reaches_endSimulation`                                               (`C14Overrides.lean`)
-* `sim_forgets_overrides`, `hist_scene_untouched`                           (`C14Stale.lean`)
-* `overrides_reverted`                                                      (`C14Revert.lean`)
-* `overrides_reverted_nested` (any nesting depth, LIFO discipline)          (`C14Nested.lean`)
-* `session_restores`                                                        (`C14Globals.lean`)
-* negation witnesses for every hypothesis                                   (`C14Witness.lean`, `C14Globals.lean`)
-
-They are parametric in the configuration/tables regenerated from /repo (`Gen/SimCleanup.lean`,
-`Gen/VeneerGlobals.lean`).  This file holds the side conditions on the generated data that are true of the
-source as found *and* after the proposed repairs; the remaining ones (`C14Side*.lean`, one module each)
-are false of the source as found – each corresponds to a reproduced defect recorded in findings.d/C14.json –
-and are built separately by the check, so that this module and the library always build.
+(`C14SideDestroy` – the rest of the `finally` block is protected against a `destroy()` that raises – is false
+of the source as found and is built by the check only when its condition holds.)
 -/
 namespace Scenic.C14
 open Scenic.Overrides Scenic.Veneer Scenic.Gen
 
-/-- `DynamicScenario._override` merges old values with `setdefault` (repaired in c4c953c9) -/
-theorem gen_merge_keeps_oldest : simCfg.merge = .keepOldest := by decide
+/-- **C14 for one simulation of the current source, however it ends** (any event sequence cut off anywhere,
+    `Simulation.setup` reached or not): the scene's objects are untouched, no object is proxied, every property
+    of every object reads as before, `veneer.endSimulation` was reached, and the shared top-level scenario
+    remembers no override. -/
+theorem sim_leaves_no_trace_current (w : World) (hw : NoneProxied w) (agentsSet : Bool) (evs : List Ev)
+    (hs : scopedEvs [] evs = true) (hd : topDiscipline false evs = true) :
+    (runSim simCfg w [] agentsSet evs).w.orig = w.orig ∧
+    NoneProxied (runSim simCfg w [] agentsSet evs).w ∧
+    (∀ o p, (runSim simCfg w [] agentsSet evs).w.read o p = w.read o p) ∧
+    (runSim simCfg w [] agentsSet evs).ended = true ∧
+    (runSim simCfg w [] agentsSet evs).stale = [] := by
+  have hab : (agentsSet || simCfg.agentsEarly) = true := by simp [gen_agents_initialised]
+  exact ⟨sim_scene_untouched_current w agentsSet evs hs,
+    sim_proxies_disabled_current w [] agentsSet evs hw,
+    fun o p => sim_reads_unchanged simCfg w agentsSet evs hw hab gen_cleanup_steps_present.1
+      gen_reverts_before_disable hs o p,
+    sim_always_ends_current w [] agentsSet evs,
+    sim_forgets_overrides simCfg w agentsSet evs gen_stop_clears_overrides hab gen_cleanup_steps_present.2.1 hd⟩
 
-/-- the `finally` block of `Simulation.__init__` contains all the steps the theorems need -/
-theorem gen_cleanup_steps_present :
-    Step.disableProxies ∈ simCfg.order ∧ Step.stopScenarios ∈ simCfg.order ∧ Step.endSimulation ∈ simCfg.order := by
-  decide
+example : scopedEvs [] failingRun = true ∧ topDiscipline false failingRun = true := by decide
 
-/-- `_stop` stops sub-scenarios before reverting; `_createObject` enables the proxy before calling the simulator -/
-theorem gen_model_assumptions : subsStoppedBeforeRevert = true ∧ proxyBeforeCreate = true := by decide
+/-- … and after it the veneer globals are those of a fresh process, whenever abandoned generators are finalised -/
+theorem sim_and_compile_restore_globals_current (ops : List Op) (late : List Nat) (n : String) :
+    session simTables ops late n = simTables.init n ∧ session compileTables ops late n = compileTables.init n :=
+  ⟨sim_restores_globals_current ops late n, compile_restores_globals_current ops late n⟩
 
-/-- the closers write initial values only, and every context manager restores what it assigns -/
-theorem gen_closers_and_cms_wf :
-    wfClose simTables = true ∧ wfCms simTables = true ∧ wfClose compileTables = true ∧ wfCms compileTables = true := by
-  decide
-
-/-- **every `override` is undone when its scenario ends** – instantiated on the source's bookkeeping -/
-theorem overrides_reverted_current (st : St) (s par : Nat)
-    (hfresh : ∀ f ∈ st.frames, inSub s f = false)
-    (pre post : List Ev) (hpre : pre.all (ownEv s) = true) (hpost : post.all (ownEv s) = true)
-    (o : ObjId) (p : PropId) (hc1 : writesTo o p pre = false) (hc2 : writesTo o p post = false) :
-    (run simCfg st ([.prepare s par] ++ pre ++ [.start s] ++ post ++ [.stop s])).w.read o p = st.w.read o p :=
-  overrides_reverted simCfg gen_merge_keeps_oldest st s par hfresh pre post hpre hpost o p hc1 hc2
-
-/-- overrides of nested scenarios are undone – instantiated on the source's bookkeeping -/
-theorem overrides_reverted_nested_current (st0 : St) (evs : List Ev) (o : ObjId) (p : PropId)
-    (hd : discAll simCfg st0.frames.length o p st0 evs = true)
-    (hend : ∀ f ∈ (run simCfg st0 evs).frames.drop st0.frames.length, isLive f = false) :
-    (run simCfg st0 evs).w.read o p = st0.w.read o p :=
-  overrides_reverted_nested simCfg gen_merge_keeps_oldest st0 evs o p hd hend
+/-- a `destroy()` that raises still cannot make a simulation of the current source write to the scene's objects -/
+theorem sim_scene_untouched_destroy_current (w : World) (agentsSet destroyFails : Bool) (evs : List Ev)
+    (hs : scopedEvs [] evs = true) : (runSimD simCfg w [] agentsSet destroyFails evs).w.orig = w.orig :=
+  sim_scene_untouched_destroy simCfg w agentsSet destroyFails evs gen_reverts_before_disable hs
 
 end Scenic.C14
